@@ -25,6 +25,9 @@ def norm(s):
 
 class C20(core.Check):
     pid = 'C20'
+    unproved = [
+        'DynamicNumpyArray = list composition inside the candle store (C18) is not mechanised',
+    ]
     rule = ('correspondence: the real _fill_absent_candles on every bitmask of present minutes (intervals up to 7 minutes '
             'exhaustively, longer ones seeded) and the real candle store (add_candle with new / repeated / older / unknown / '
             'zero timestamps on 1m and larger timeframes, add_multiple_1m_candles, the input spacing check of '
